@@ -277,7 +277,7 @@ def kappa(spec: dict, x: float = 0.0) -> float:
     elif cls == "Bell":
         loc, w, factor = [p[0]], p[1], max(1.0, 2 * p[2])
     elif cls in ("Cosine", "Spike"):
-        loc, w = [p[0]], p[1] / (10.0 if cls == "Spike" else 6.3)
+        loc, w = [p[0]], abs(p[1]) / (10.0 if cls == "Spike" else 6.3)
     elif cls == "Gaussian":
         loc, w = [p[0]], p[1]
     elif cls == "GaussianProduct":
